@@ -54,6 +54,12 @@ def opFn (j : Json) : Except String Json := do
   if name == "fix_field_path" then
     let a0 ← argStr j 0
     return Json.mkObj [("r", jstr (Pinned.Funcs.fix_field_path a0))]
+  if name == "field_header_disambiguated" then
+    let a0 ← argStr j 0
+    return Json.mkObj [("r", jstr (Pinned.Funcs.field_header_disambiguated a0))]
+  if name == "routing_param_disambiguated_field" then
+    let a0 ← argStr j 0
+    return Json.mkObj [("r", jstr (Pinned.Funcs.routing_param_disambiguated_field a0))]
   throw s!"unknown translated function {name}"
 
 def opsFuncs : List (String × (Json → Except String Json)) := [("fn", opFn)]
